@@ -149,7 +149,10 @@ class Executor(ExecFull):
         self.apply_modifies(c, c.modifies, fr)
         res = None
         if c.result is not None:
-            res = self.make_result(fn.name, c.result)
+            if callable(c.result) and not isinstance(c.result, (Ty, ListOf, IterOf, ObjSpec)):
+                res = c.result(self, fr.env)  # result shape depends on the arguments
+            else:
+                res = self.make_result(fn.name, c.result)
             fr.env["result"] = res
         for e in c.ensures:
             self.p.assume(self.eval_clause(e, fr))
@@ -323,7 +326,7 @@ def run_one_path(ex, world, fn, c):
     if raised is not None:
         spec = c.raises.get(raised)
         if spec is None:
-            if raised in getattr(c, "may_raise", ()):  # pragma: no cover
+            if c.may_raise is True or raised in c.may_raise:
                 return
             ex.oblige("no-exception", z3.BoolVal(False), fn.node, tag=f"[{raised}]")
             return
